@@ -141,6 +141,8 @@ def execute(program, ctx):
     from sim import trainsim as ts, gensim
     from sim.core import Violation
 
+    if program.get("obs_data") and program["obs_data"].get("params"):
+        ts._fresh_code_solve()
     P = ts.build(program)
     n = program["segments"][0]["n"]
     V = program["validation"]
